@@ -83,7 +83,9 @@ def gen_op(rng, small=False):
         if f == 'f_dict':
             return dict(t='call', f=f, args=[rng.choice([0, 3, 5])], kw={})
         return dict(t='call', f=f, args=[rng.choice([1, 2, 3])], kw={})
-    rname = rng.choice(['Fib', 'Fib', 'Count', 'Tri', 'Held'])
+    rname = rng.choice(['Fib', 'Fib', 'Count', 'Tri', 'Held'] + ([] if small else ['Big']))
+    if rname == 'Big':
+        return dict(t='iter', r='Big', args=[rng.choice([1, 2])], m=rng.choice([1, 2, 3]))
     if rname == 'Held':
         return dict(t='iter', r='Held', args=[rng.choice([1, 4])], m=rng.choice([1, 2, 3, 4, 5]))
     if rname == 'Fib':
@@ -444,6 +446,15 @@ def apply_garbage(g, cachedir):
 
 # ---------------------------------------------------------------------- history mode
 
+def _hkey(w):
+    '''What the harness recursions report of a history item (see the HOOK calls in c18_funcs).'''
+    if isinstance(w, tuple):
+        return w[2]
+    if isinstance(w, numpy.ndarray):
+        return w[0]
+    return w
+
+
 def _hook_factory(sim, fail_at, models_hist, work=0):
     from . import c18_funcs as F
 
@@ -468,7 +479,7 @@ def _hook_factory(sim, fail_at, models_hist, work=0):
             seq = F.model_sequence(name, list(args), index)
             want = seq[max(0, index - length):index]
             got = list(hist)
-            ok = len(got) == len(want) and all(deep_equal(numpy.asarray(g, dtype=float), numpy.asarray(w if not isinstance(w, numpy.ndarray) else w[0], dtype=float)) for g, w in zip(got, want))
+            ok = len(got) == len(want) and all(deep_equal(numpy.asarray(g, dtype=float), numpy.asarray(_hkey(w), dtype=float)) for g, w in zip(got, want))
             if not ok:
                 sim.log(K['MARK'], 910, index)
                 sim.probes[12] += 1
@@ -753,7 +764,7 @@ def run_enum(case):
             seq = F.model_sequence(name, list(args), index)
             want = seq[max(0, index - length):index]
             got = list(hist)
-            ok = len(got) == len(want) and all(deep_equal(numpy.asarray(g, dtype=float), numpy.asarray(w if not isinstance(w, numpy.ndarray) else w[0], dtype=float)) for g, w in zip(got, want))
+            ok = len(got) == len(want) and all(deep_equal(numpy.asarray(g, dtype=float), numpy.asarray(_hkey(w), dtype=float)) for g, w in zip(got, want))
             if not ok:
                 hist_bad.append((index, got, want))
                 raise AssertionError('history mismatch')
